@@ -6,12 +6,14 @@ Steps (scratch worktree of /repo HEAD outside /repo and /verif, removed afterwar
   4. the repository's test suite still passes with the change; 5. the given checks (default: PID) report a violation."""
 import json, os, shutil, subprocess, sys, tempfile
 pid, name = sys.argv[1], sys.argv[2]
-checks = sys.argv[3:] or [pid]
+prop = pid.replace("r2_", "").replace("r3_", "")
+tag = ("r2" if pid.startswith("r2_") else "r3" if pid.startswith("r3_") else "")
+checks = sys.argv[3:] or [prop]
 src = f"/tmp/agents/{pid}/out"
 patch, demo, meta = f"{src}/{name}.diff", f"{src}/{name}_demo.py", f"{src}/{name}_meta.json"
 wt = tempfile.mkdtemp(prefix="gbmc_vs_", dir="/tmp"); os.rmdir(wt)
 out = tempfile.mkdtemp(prefix="gbmc_vo_", dir="/tmp")
-res = {"property": pid, "name": name, "base_commit": subprocess.check_output(["git", "-C", "/repo", "rev-parse", "--short", "HEAD"], text=True).strip()}
+res = {"property": prop, "name": tag + name, "base_commit": subprocess.check_output(["git", "-C", "/repo", "rev-parse", "--short", "HEAD"], text=True).strip()}
 def rundemo():
     env = dict(os.environ, PYTHONPATH=f"{wt}/src", PYTHONHASHSEED="0")
     # demos hard-code the agent's worktree path in places; run a copy with the path rewritten
@@ -41,11 +43,11 @@ ok = res.get("patch_applies") and res.get("demo_pristine_exit") == 0 and res.get
 res["confirmed"] = bool(ok)
 res["detected_by"] = [c for c, v in res.get("checks", {}).items() if v["exit"] == 1]
 if ok:
-    d = f"/verif/seeded/{pid}_{name}"; os.makedirs(d, exist_ok=True)
+    d = f"/verif/seeded/{prop}_{tag}{name}"; os.makedirs(d, exist_ok=True)
     shutil.copy(patch, f"{d}/patch.diff"); shutil.copy(demo, f"{d}/demo.py")
     am = {}
     try: am = json.load(open(meta))
     except Exception: pass
-    json.dump({"property": pid, "agent_summary": am.get("summary"), "needs_to_manifest": am.get("needs_to_manifest"), "verification": res,
+    json.dump({"property": prop, "agent_summary": am.get("summary"), "needs_to_manifest": am.get("needs_to_manifest"), "verification": res,
                "what_i_ran": "tools/verify_seeded.py: demo on pristine scratch worktree (exit 0), demo with patch (exit != 0), tools/suite.py with patch (all baseline tests pass), then ./check <ID> quick with GBMC_REPO=<scratch worktree>"}, open(f"{d}/meta.json", "w"), indent=1)
 print(json.dumps(res, indent=1))
